@@ -493,3 +493,11 @@ def r10(ctx):
             ctx.fail(b, 'padded-rewritten|' + (t.callee_res() or '').rsplit('::', 1)[-1], 'tensorize modifies a matrix returned by pad_ids with `%s` (line %d): entries inside an '
                      'item\'s own part of the row can change, so the matrix no longer holds each item\'s values followed by padding' % ((t.callee_res() or '').rsplit('::', 1)[-1], t.span['line']), t.span)
     ctx.ok(b, '%d pad_ids results of tensorize are handed on unmodified' % len(pads))
+
+
+@rule('C17', 'R-C17-11', 'prerequisite (the special-token split)',
+      'the pieces ByteTokenizer::process_input builds ids and groups for come from BaseTokenizer::split_input, which tiles the text '
+      '(R-C01-3 re-evaluated): a lost or duplicated piece changes ids and groups together, so the pairing rules of this property do not see it')
+def r11(ctx):
+    from rules import c01
+    c01.r3(ctx)
